@@ -108,6 +108,23 @@ func (p c06) Gen(r *simhook.Rand, tier string, idx int) harness.Scenario {
 		}
 		return &C06Scenario{Kind: "e2e", T: ts}
 	}
+	if r.Chance(1, 10) {
+		// class "rr-config-update": round-robin over a stable set of backends, arrivals strictly one after the other,
+		// and configuration updates that do not touch the policy in between: the rotation must not notice them
+		ts = &TCPScenario{Meta: harness.GenMeta(r, 0)}
+		ts.Class = "rr-config-update"
+		ts.SlackMs, ts.Dense, ts.Strategy = 0, false, "uniform"
+		n := 2 + r.Intn(3)
+		ts.Env = world.TCPCfg{Backends: n, Policy: 0}
+		nc := 2*n + r.Intn(2*n+1)
+		for i := 0; i < nc; i++ {
+			ts.Conns = append(ts.Conns, TCPConn{Name: fmt.Sprintf("s%d", i), C2S: StreamSpec{Len: 1}, S2C: StreamSpec{Len: 1}, AfterMs: 200 + i*500})
+		}
+		for i := 0; i < 1+r.Intn(3); i++ {
+			ts.Faults = append(ts.Faults, TCPFault{Kind: "config-update", AtMs: 200 + (1+r.Intn(nc-1))*500 - 250})
+		}
+		return &C06Scenario{Kind: "e2e", T: ts}
+	}
 	nconn := 1 + r.Intn(8)
 	for i := 0; i < nconn; i++ {
 		c := TCPConn{Name: fmt.Sprintf("c%d", i), C2S: StreamSpec{Len: r.Intn(300)}, S2C: StreamSpec{Len: r.Intn(300)}, After: r.Intn(150)}
@@ -164,6 +181,9 @@ func (p c06) Gen(r *simhook.Rand, tier string, idx int) harness.Scenario {
 		switch r.Intn(4) {
 		case 0:
 			f.Kind, f.Node = "host-remove", r.Intn(nb)
+			// the store matches endpoints by address and hands on whatever object the remover gave: its type may
+			// differ from the stored one
+			f.AsBackup = r.Chance(1, 3)
 		case 1:
 			f.Kind, f.Node = "host-add", r.Intn(nb)
 		case 2:
@@ -356,9 +376,54 @@ func (p c06) runLC(t *testing.T, ts *TCPScenario) harness.Outcome {
 	return out
 }
 
+// runRR: class "rr-config-update" (see Gen).
+func (p c06) runRR(t *testing.T, ts *TCPScenario) harness.Outcome {
+	w := newTCPWorld(ts)
+	judged := 0
+	w.fin = func(w *tcpWorld) *simrt.Violation {
+		n := ts.Env.Backends
+		if len(w.clients) != len(ts.Conns) || n < 2 {
+			return nil
+		}
+		for _, f := range ts.Faults {
+			if f.Kind != "config-update" {
+				return nil // not the history this class is about
+			}
+		}
+		var got []int
+		for _, cl := range w.clients {
+			g := -1
+			if cl.other != nil {
+				fmt.Sscanf(cl.other.header, "B%03d.", &g)
+			}
+			if g < 0 {
+				return &simrt.Violation{Clause: "relayed-to-usable-host", Detail: fmt.Sprintf("connection %s was not relayed to any backend although all %d backends are members and accept connections", cl.name, n)}
+			}
+			got = append(got, g)
+		}
+		for i := 0; i+n <= len(got); i++ {
+			seen := map[int]bool{}
+			for _, g := range got[i : i+n] {
+				seen[g] = true
+			}
+			judged++
+			if len(seen) != n {
+				return &simrt.Violation{Clause: "round-robin-exact", Detail: fmt.Sprintf("round-robin over %d unchanged backends, connections arriving one after the other: they were relayed to backends %v; connections %d..%d do not visit every backend once (%d configuration updates without a policy change happened in between)", n, got, i, i+n-1, w.cfgUpdates)}
+			}
+		}
+		return nil
+	}
+	out := runTCP(t, ts, w)
+	out.Nontrivial = judged > 0 && w.cfgUpdates > 0
+	return out
+}
+
 func (p c06) runE2E(t *testing.T, sc *C06Scenario) harness.Outcome {
 	if sc.T.Class == "lc-after-dial-failures" {
 		return p.runLC(t, sc.T)
+	}
+	if sc.T.Class == "rr-config-update" {
+		return p.runRR(t, sc.T)
 	}
 	ts := sc.T
 	w := newTCPWorld(ts)
@@ -500,6 +565,22 @@ func (p c06) Shrink(s harness.Scenario) []harness.Scenario {
 			c := cloneTCP(sc.T)
 			c.Conns = c.Conns[:n-1]
 			out = append(out, &C06Scenario{Kind: "e2e", T: c})
+		}
+		return out
+	}
+	if sc.T != nil && sc.T.Class == "rr-config-update" {
+		// strictly sequential arrivals: only drop connections from the end, or a configuration update
+		if n := len(sc.T.Conns); n > sc.T.Env.Backends {
+			c := cloneTCP(sc.T)
+			c.Conns = c.Conns[:n-1]
+			out = append(out, &C06Scenario{Kind: "e2e", T: c})
+		}
+		for i := range sc.T.Faults {
+			if len(sc.T.Faults) > 1 {
+				c := cloneTCP(sc.T)
+				c.Faults = append(append([]TCPFault(nil), c.Faults[:i]...), c.Faults[i+1:]...)
+				out = append(out, &C06Scenario{Kind: "e2e", T: c})
+			}
 		}
 		return out
 	}
